@@ -73,7 +73,15 @@ def rule_v1(ctx, pl: Pipeline, writers) -> None:
         if w.klass in ("atom-map-removal", "revert-unsolved"):
             continue
         later = [i for i in armed_idx if i > w.stage.index]
-        if w.klass in dirty_classes:
+        klass = w.klass
+        if klass.startswith("restore-saved("):
+            # restoring the text saved before stage k touches only solved rows if stage k itself selected solved rows
+            k = int(klass[len("restore-saved(") : -1])
+            src = [x for x in writers if x.stage.index == k and x.klass in dirty_classes]
+            if src:
+                klass = "unguarded"
+                ctx.note("C03-V1: %s restores text saved at stage %d, whose writer is %s [%s]: the restore is judged like that writer" % (w.where, k, src[0].where, src[0].klass))
+        if klass in dirty_classes:
             ok = bool(later)
             ctx.instance("C03-V1", "stage %d %s writes %s [%s]; next armed revert: %s" % (w.stage.index, w.stage.label, w.where, w.klass, min(later) if later else None), w.where, ok=ok)
             if not ok:
@@ -310,3 +318,39 @@ def check(ctx) -> None:
     from . import c12
 
     c12.rule_k1(ctx, "C03-V6")
+    rule_v7(ctx)
+
+
+def rule_v7(ctx) -> None:
+    """C03 is stated for the default confidence threshold, under which the confidence filter demotes nothing (V5).  The
+    default is 0 in every place that supplies one: the Balancer constructor and the `run` command line."""
+    from ..constfold import Folder, Unfoldable, fold_in
+
+    ctx.rule("C03-V7", "every default of the confidence threshold (Balancer constructor, `run` command line) is 0", 2)
+    prog = ctx.prog
+    init = prog.func("synrbl.balancing.Balancer.__init__")
+    d = init.param_defaults().get("confidence_threshold")
+    ctx.require(d is not None, "Balancer.__init__ lost the confidence_threshold default")
+    try:
+        fo = Folder(init.module, None)
+        fo.prog = prog
+        v = fo.fold(d)
+    except Unfoldable as e:
+        raise AnalysisError("default of Balancer(confidence_threshold=..) is not a constant: %s" % e)
+    ok = isinstance(v, (int, float)) and not isinstance(v, bool) and v == 0
+    ctx.instance("C03-V7", "Balancer(confidence_threshold=%r)" % (v,), init.loc(), ok=ok)
+    if not ok:
+        ctx.finding("C03-V7", "Balancer.__init__:default-threshold", init.loc(), "the default confidence threshold of the Balancer is %r, not 0: with default options MCS results below it are demoted and keep their imputed molecules" % (v,))
+    cfgf = prog.func("synrbl.SynCmd.cmd_run.configure_argparser")
+    sites = [c for c in own_nodes(cfgf.node) if isinstance(c, ast.Call) and isinstance(c.func, ast.Attribute) and c.func.attr == "add_argument" and c.args and const_str(c.args[0]) == "--min-confidence"]
+    ctx.require(sites, "the run command no longer defines --min-confidence")
+    for c in sites:
+        dv = next((k.value for k in c.keywords if k.arg == "default"), None)
+        try:
+            v = fold_in(cfgf, dv, prog) if dv is not None else None
+        except Unfoldable as e:
+            raise AnalysisError("default of --min-confidence is not a constant: %s" % e)
+        ok = isinstance(v, (int, float)) and not isinstance(v, bool) and v == 0
+        ctx.instance("C03-V7", "run --min-confidence default %r" % (v,), cfgf.loc(c), ok=ok)
+        if not ok:
+            ctx.finding("C03-V7", "SynCmd.cmd_run.configure_argparser:default-threshold", cfgf.loc(c), "the `run` command defaults --min-confidence to %r, not 0: with default options low-confidence MCS results come back unsolved with their imputed molecules still in the reaction" % (v,))
